@@ -119,7 +119,7 @@ def jsexp(j):
 
 def node_sexp(n):
     """real GraphNode / TaskRef / raw argument -> s-expression (model `Node`)"""
-    from dask._task_spec import Alias, DataNode, GraphNode, NestedContainer, Task, TaskRef, _identity_cast
+    from dask._task_spec import Alias, DataNode, Dict, GraphNode, NestedContainer, Task, TaskRef, _identity_cast
     if isinstance(n, Alias):
         return [Sym("alias"), to_sexp(n.target)]
     if isinstance(n, DataNode):
@@ -133,6 +133,11 @@ def node_sexp(n):
                 [[to_sexp(k), node_sexp(v)] for k, v in kw.items()]]
     if isinstance(n, Task):
         kw = dict(n.kwargs)
+        if n.func is NestedContainer.to_container and kw.get("constructor") is Dict.constructor:
+            # a keyed dict value: the computation of `Dict(...)` as a plain Task
+            kw.pop("constructor")
+            return [Sym("task"), [Sym("cont"), Sym("dict")], [node_sexp(a) for a in n.args],
+                    [[to_sexp(k), node_sexp(v)] for k, v in kw.items()]]
         if n.func is _identity_cast:
             typ = kw.pop("typ")
             f = [Sym("icast"), Sym({list: "list", tuple: "tuple", dict: "dict", set: "set", frozenset: "frozenset"}[typ])]
